@@ -40,7 +40,8 @@ def plan(tier, seed):
   # violations that are not yet minimised and classified (DESIGN.md section 10, findings/leads), and
   # an unclassified alarm must not be shipped, so the tier is limited to the depth swept quiet.
   fams = [seed] if tier == 'quick' else [seed, seed + 1, seed + 2, seed + 3]
-  return [{'witness': 'summary_error_keys'}, {'witness': 'trigger_on_error_cells'}, {'witness': 'self_lookup_cycle'}] + \
+  return [{'witness': 'summary_error_keys'}, {'witness': 'trigger_on_error_cells'}, {'witness': 'self_lookup_cycle'},
+          {'witness': 'regressions'}] + \
          [{'hseed': f * 100003 + i, 'steps': 40} for f in fams for i in range(16)] + \
          [{'hseed': f * 100003 + 50000 + i, 'steps': 40, 'stream': 'B'} for f in fams for i in range(8)]
 
@@ -146,6 +147,36 @@ def witness_self_lookup_cycle(acc):
                     'B from scratch: %s' % d[:2], {'diff': d})
     elif d:
       acc.violation('undo_diff', 'witness history: state after undo differs: %s' % d[:3], {'diff': d})
+
+
+def witness_regressions(acc):
+  """Regression scenarios for repaired findings (they suppress nothing: each is judged by the plain undo oracle and
+  reported as an ordinary violation if it comes back). Seeded over a few variants so that each counts as a case."""
+  import random
+  from vlib.client import EngineProc
+  from vlib import snapshot
+  rnd = random.Random(1)
+  for variant in range(6):
+    with EngineProc() as p:
+      p.init_doc()
+      # 56e053f: undo of a change to a column listed in the recalcDeps of a trigger formula must not run it.
+      p.apply([['AddTable', 'T', [{'id': 'A', 'type': 'Int', 'isFormula': False},
+                                 {'id': 'F', 'type': 'Any', 'isFormula': True, 'formula': '$A * 2'}]]])
+      p.apply([['BulkAddRecord', 'T', [None, None, None], {'A': [rnd.randint(1, 9) for _ in range(3)]}]])
+      p.apply([['AddColumn', 'T', 'G', {'type': 'Any', 'isFormula': False, 'formula': '$F + 1', 'recalcWhen': 0, 'recalcDeps': [3]}]])
+      p.apply([['BulkUpdateRecord', 'T', [1, 2], {'G': [rnd.randint(50, 99), rnd.randint(50, 99)]}]])     # manual overrides
+      S0 = snapshot.take(p)
+      change = [['ModifyColumn', 'T', 'F', {'formula': '$A * %d' % rnd.randint(3, 9)}],
+                ['ModifyColumn', 'T', 'F', {'isFormula': False}],
+                ['ModifyColumn', 'T', 'F', {'formula': '$A + 1', 'type': 'Int'}]][variant % 3]
+      r = p.apply([change] if variant < 3 else [change, ['UpdateRecord', 'T', 3, {'A': rnd.randint(10, 20)}]])
+      p.apply([['ApplyUndoActions', r.undo]])
+      d = snapshot.diff(S0, snapshot.take(p))
+      acc.count('regression_scenarios')
+      acc.case('regression-56e053f-%d' % variant, {'bundle': [change]} if variant == 0 else None)
+      if d:
+        acc.violation('undo_diff', 'state after undo differs from state before bundle %s (trigger formula depending on the '
+                      'changed column, with manual overrides): %s' % ([change[0]], d[:3]), {'bundle': [change], 'diff': d})
 
 
 def run_shard(spec, acc):
